@@ -164,6 +164,17 @@ func main() {
 			c := genEditCase(rand.New(rand.NewSource(cs)), i, cs)
 			emit(w, runEditPair(c))
 		}
+	case "editcoll":
+		rng := rand.New(rand.NewSource(*seed))
+		for i := 0; i < *n; i++ {
+			cs := rng.Int63()
+			if i < *start {
+				continue
+			}
+			c := genEditCase(rand.New(rand.NewSource(cs)), i, cs)
+			c.Shape = "flat"
+			emit(w, runEditCollPair(c))
+		}
 	case "editall":
 		allEditCases(*n, func(c *CaseDesc) {
 			if c.N < *start {
